@@ -325,6 +325,65 @@ pub fn standard_roots(w: &World, s0: &Store, with_forged: bool) -> Vec<(String, 
     roots
 }
 
+/// RMS: u1 moved to a new account (real transfer instruction); the migrated-away shell - disabled, `migrated_to`
+/// set - then picked up a deposit in bank 0 (forged, with the bank total raised to match), as it could by acting
+/// as the liquidator in a classic liquidation, which does not look at the liquidator's flags. Closing the shell is
+/// one step away and must not make the position vanish from under the bank total.
+pub fn migrated_shell_root(w: &World, s0: &Store) -> Vec<(String, HState)> {
+    let nb = w.banks.len();
+    let std = standard_roots(w, s0, false);
+    let Some((_, r1)) = std.iter().find(|(k, _)| k == "R1") else { return vec![] };
+    let mut s = r1.s.clone();
+    if !act::apply(w, &mut s, &Action::Transfer { u: 1 }).committed {
+        return vec![];
+    }
+    let shell = w.users[1].account;
+    let shares = I80F48::from_num(12_345_678);
+    let bk = w.banks[0].key;
+    edit_account(&mut s, &shell, |a| {
+        let mut nb = marginfi_type_crate::types::Balance::empty_deactivated();
+        nb.active = 1;
+        nb.bank_pk = bk;
+        nb.asset_shares = shares.into();
+        nb.last_update = 1_700_000_000;
+        a.lending_account.balances[0] = nb;
+    });
+    edit_bank(&mut s, &bk, |b| {
+        b.total_asset_shares = (I80F48::from(b.total_asset_shares) + shares).into();
+        b.lending_position_count += 1;
+    });
+    // the tokens behind the forged deposit, so that the vault still covers the books
+    let amt = (shares * I80F48::from(bank(&s, &bk).asset_share_value)).ceil().to_num::<u64>() + 1;
+    mint_to(&mut s, &w.mint_auth, &w.banks[0].mint, &w.banks[0].lv, w.banks[0].t22, amt);
+    vec![("RMS".to_string(), HState { s, clock_devs: 0, price_devs: 0, closes: vec![0; nb], forged: true })]
+}
+
+/// REM: root R1 with liquidity-mining rewards switched on for both sides of both banks (real setup_emissions by the
+/// emissions admin, funded reward vaults), ten days later: every position has unclaimed rewards of far more than
+/// one reward unit pending. Balance changes, full withdrawals / repayments and closes then run through the reward
+/// settlement paths.
+pub fn emissions_root(w: &World, s0: &Store) -> Vec<(String, HState)> {
+    let nb = w.banks.len();
+    let std = standard_roots(w, s0, false);
+    let Some((_, r1)) = std.iter().find(|(k, _)| k == "R1") else { return vec![] };
+    let mut s = r1.s.clone();
+    let em_mint = create_mint(&mut s, &w.payer, &w.mint_auth, &MintSpec::spl(&format!("{}:emis", label_of(&w.group)), 6));
+    let funding = create_token_account(&mut s, &w.payer, &format!("{}:em_funding", label_of(&w.group)), &em_mint, &w.roles.emissions, false);
+    mint_to(&mut s, &w.mint_auth, &em_mint, &funding, false, 4_000_000_000_000);
+    let flags = marginfi_type_crate::constants::EMISSIONS_FLAG_LENDING_ACTIVE | marginfi_type_crate::constants::EMISSIONS_FLAG_BORROW_ACTIVE;
+    for b in 0..nb.min(2) {
+        let r = crate::svm::process_tx(&mut s, &crate::svm::Tx::one(ix::setup_emissions(w.group, w.roles.emissions, w.banks[b].key, em_mint, funding, spl_token::id(), flags, 1_000_000, 1_000_000_000_000), &[w.roles.emissions]));
+        if !r.ok() {
+            root_failure(format!("root construction REM: setup_emissions failed with {}", crate::svm::err_name(r.code())));
+            return vec![];
+        }
+    }
+    if !do_all(w, &mut s, &[Action::Advance { dt: 864_000 }, Action::Accrue { b: 0 }, Action::Accrue { b: 1 }], "REM") {
+        return vec![];
+    }
+    vec![("REM".to_string(), HState { s, clock_devs: 0, price_devs: 0, closes: vec![0; nb], forged: false })]
+}
+
 /// RK: bank 0 as a bankruptcy wipe-out leaves it (forged on top of R1): deposit share value 0, killed. Its
 /// lenders hold worthless shares, u1 still owes it.
 pub fn killed_root(w: &World, s0: &Store) -> Vec<(String, HState)> {
